@@ -116,3 +116,83 @@ Definition merge_files_pinned (mfm : bool) (d : N) (S : rstate) : merge_result :
   | MOk S' M f => MOk (MkRs (rs_stack S') (set_last_ub (rs_files S') (ub f)) (rs_writable S')) M f
   | r => r
   end.
+
+(** ** Record operations around the merge: commit, create_patch, discard_patch, writes
+
+    [rstep] returns [None] when the code refuses the operation (raises before any effect):
+    [commit_patch] / [discard_patch] without a writable container or on a read-only handle,
+    [create_patch] on a read-only handle or with a writable container present, a write without
+    a writable container, and any write the overlay itself refuses.  A refused operation leaves
+    the state as it is ([rapply]).  [mid], [mh]: identifier and digest of the manifest a
+    manifest-aware commit writes; [p]: the patch id a new patch gets. *)
+Inductive rop : Type :=
+| RCommit (mid mh : N)
+| RCreate (p : N)
+| RDiscard
+| RWrite (o : op).
+
+Fixpoint map_last {X} (f : X -> X) (l : list X) : list X :=
+  match l with
+  | [] => []
+  | [x] => [f x]
+  | x :: r => x :: map_last f r
+  end.
+
+Definition commit_file (mfm : bool) (mid mh : N) (f : file) : file :=
+  let u := ub f in
+  let e := if mfm then Some (MkExt (stub_marked f) mid mh) else ext u in
+  MkFile (MkUb (rec_id u) (idx u) (pid u) (prev u) (Some (dig f)) e) (dig f)
+         (if mfm then Some (mid, mh) else mf f).
+
+Definition new_patch_file (p : N) (n : file) : file :=
+  MkFile (MkUb (frec n) (N.succ (fidx n)) p (Some (fpid n)) None None) 0%N None.
+
+Definition rstep (mfm ro : bool) (S : rstate) (o : rop) : option rstate :=
+  match o with
+  | RCommit mid mh =>
+      if ro then None else
+      if rs_writable S then Some (MkRs (rs_stack S) (map_last (commit_file mfm mid mh) (rs_files S)) false)
+      else None
+  | RCreate p =>
+      if ro || rs_writable S then None else
+      match rs_files S with
+      | [] => None
+      | b :: _ => Some (MkRs (m_boundary (rs_stack S))
+                             (rs_files S ++ [new_patch_file p (List.last (rs_files S) b)]) true)
+      end
+  | RDiscard =>
+      if ro then None else
+      if negb (rs_writable S) then None else
+      match rs_files S with
+      | [] | [_] => None                       (* "Cannot discard base container!" *)
+      | _ => Some (MkRs (tail (rs_stack S)) (List.removelast (rs_files S)) false)
+      end
+  | RWrite o =>
+      if negb (rs_writable S) then None else
+      match o with
+      | OBoundary => None
+      | _ => let '(R', ok) := m_step (rs_stack S) o in
+             if ok then Some (MkRs R' (rs_files S) true) else None
+      end
+  end.
+
+Definition rapply (mfm ro : bool) (S : rstate) (o : rop) : rstate :=
+  match rstep mfm ro S o with Some S' => S' | None => S end.
+
+Definition rrun (mfm ro : bool) (S : rstate) (ops : list rop) : rstate :=
+  foldl (rapply mfm ro) S ops.
+
+(** The pinned [IH5MFRecord.commit_patch] prepares the new block as a shallow copy of the old
+    one and writes the link to the prospective manifest into the shared [ub_exts] before the
+    checks: a refused commit leaves that link (to a manifest never written) in the block. *)
+Definition pollute (mid mh : N) (f : file) : file :=
+  let u := ub f in
+  MkFile (MkUb (rec_id u) (idx u) (pid u) (prev u) (hash u) (Some (MkExt false mid mh))) (dig f) (mf f).
+
+Definition rapply_pinned (mfm ro : bool) (S : rstate) (o : rop) : rstate :=
+  match rstep mfm ro S o, o with
+  | Some S', _ => S'
+  | None, RCommit mid mh =>
+      if mfm then MkRs (rs_stack S) (map_last (pollute mid mh) (rs_files S)) (rs_writable S) else S
+  | None, _ => S
+  end.
